@@ -98,6 +98,13 @@ namespace OpenMEEG {
         S = SparseMatrix(nlin(),ncol());
         V = Matrix(ncol(),ncol());
         V.set(0.0);
+        if (mini==0) { // Empty matrix: no singular value, identity factors (LAPACK rejects a zero leading dimension).
+            for (Index i=0; i<nlin(); ++i)
+                U(i,i) = 1.0;
+            for (Index i=0; i<ncol(); ++i)
+                V(i,i) = 1.0;
+            return;
+        }
         double* s = new double[mini];
         // int lwork = 4 *mini*mini + maxi + 9*mini;
         // http://www.netlib.no/netlib/lapack/double/dgesdd.f :
